@@ -6,6 +6,7 @@ import JubakoModel.Lemmas.DirCodec
 import JubakoModel.Lemmas.DirFile
 import JubakoModel.Lemmas.FuncsBytes
 import JubakoModel.Lemmas.FuncsDir
+import JubakoModel.Lemmas.FuncsSearch
 
 namespace Jubako
 
@@ -154,5 +155,14 @@ theorem c02_width_rules_are_source_rules :
 /-- non-vacuity: the translated key at the boundaries the signed-width defect (D3) was about -/
 example : Generated.signedSizeKey 127 = 254 ∧ Generated.signedSizeKey 128 = 256 ∧ Generated.signedSizeKey (-128) = 254 ∧
           Generated.signedSizeKey (-129) = 256 ∧ Generated.signedSizeKey (-9223372036854775808) = 9223372036854775807 := by decide
+
+/-- **The window rule of `c02_window` is the body of `RangeTrait::get_entry` translated on every run**,
+    followed by the store's own bound. -/
+theorem c02_window_is_source_window (offset count n k : Nat) :
+    windowGet offset count n k =
+      (Generated.rangeGetEntry offset count k).bind (fun i => if i < n then some i else none) := by
+  rw [gen_rangeGetEntry]
+  unfold windowGet
+  by_cases h : k < count <;> simp [h]
 
 end Jubako
